@@ -14,6 +14,8 @@ window between the expiry of the sleep and the resumption of `_do_tick` (defect 
         which, _ = await asyncio.wait([current, new], return_when=FIRST_COMPLETED)
         if new in which: current.cancel(); return
         new.cancel()
+        components, when = self.get_first_wakeups() # NEW (second repair): re-evaluated — a wakeup
+        assert when is not None                     # may have been added while the sleep expired
         for c in components: del self.wakeups[c]
         await self.ticker(when, components)
 
@@ -22,14 +24,14 @@ window between the expiry of the sleep and the resumption of `_do_tick` (defect 
         self.new_wakeup.set()
 
 This file is self-contained (it is not part of the driver's model); the parameter
-`fixed : Bool` of `LoopSt.step` selects the repaired (`true`) or the original (`false`) loop.
+`fixed : Bool` of `MLoopSt.step` selects the repaired (`true`) or the original (`false`) loop.
 -/
 import TickitModel.Core.Sched
 
 namespace Tickit
 
 /-- where the coroutine `_do_tick` stands. -/
-inductive LoopPc
+inductive MLoopPc
   /-- about to evaluate `while not self.wakeups` -/
   | top
   /-- inside `await self.new_wakeup.wait()` of the while loop -/
@@ -45,28 +47,28 @@ inductive LoopPc
   deriving Repr, DecidableEq
 
 /-- the components chosen by `get_first_wakeups` and not served yet. -/
-def LoopPc.chosen : LoopPc → List Comp
+def MLoopPc.chosen : MLoopPc → List Comp
   | .sleeping cs _ => cs
   | .sleptNotResumed cs _ => cs
   | _ => []
 
 /-- the tasks `current` and `new` exist. -/
-def LoopPc.isRacing : LoopPc → Bool
+def MLoopPc.isRacing : MLoopPc → Bool
   | .sleeping _ _ => true
   | .sleptNotResumed _ _ => true
   | _ => false
 
-structure LoopSt where
+structure MLoopSt where
   /-- `self.wakeups` -/
   wake : Wakeups := []
   /-- `self.new_wakeup.is_set()` -/
   flag : Bool := false
-  pc : LoopPc := .top
+  pc : MLoopPc := .top
   /-- the task `new` has observed the flag (one loop iteration after `set()`) -/
   flagTaskDone : Bool := false
   deriving Repr, DecidableEq
 
-inductive LoopAct
+inductive MLoopAct
   /-- environment: `add_wakeup` (an interrupt, or an answer carrying `call_at`) -/
   | addWakeup (c : Comp) (t : SimTime)
   /-- the event loop runs the task `new`: it completes iff the flag is set -/
@@ -79,14 +81,21 @@ inductive LoopAct
 
 /-- `components, when = self.get_first_wakeups(); assert when is not None;
     self.new_wakeup.clear(); new = ...; current = ...` -/
-def LoopSt.choose (s : LoopSt) : LoopSt :=
+def MLoopSt.choose (s : MLoopSt) : MLoopSt :=
   match firstWakeups s.wake with
   | (cs, some w) => { s with flag := false, flagTaskDone := false, pc := .sleeping cs w }
   | (_, none) => { s with pc := .dead }
 
+/-- the second repair: `components, when = self.get_first_wakeups()` re-evaluated right before
+the deletion loop and the tick ("serve what is first now"); the flag is NOT cleared. -/
+def MLoopSt.serveFirst (s : MLoopSt) : MLoopSt :=
+  match firstWakeups s.wake with
+  | (cs, some w) => { s with wake := delWakeups s.wake cs, pc := .ticking cs w }
+  | (_, none) => { s with pc := .dead }
+
 /-- one transition; `none` = the action is not enabled.  `fixed = true`: the repaired loop,
 `fixed = false`: the original one. -/
-def LoopSt.step (fixed : Bool) (s : LoopSt) : LoopAct → Option LoopSt
+def MLoopSt.step (fixed : Bool) (s : MLoopSt) : MLoopAct → Option MLoopSt
   | .addWakeup c t =>
     if s.pc = .dead then none
     else some { s with wake := addWakeup s.wake c t, flag := true }
@@ -114,21 +123,23 @@ def LoopSt.step (fixed : Bool) (s : LoopSt) : LoopAct → Option LoopSt
     | .sleptNotResumed cs w =>
       if s.flagTaskDone then some { s with pc := .top }
       else
-        -- `new.cancel(); for c in components: del self.wakeups[c]` — the flag is NOT cleared
-        some { s with wake := delWakeups s.wake cs, pc := .ticking cs w }
+        -- `new.cancel(); for c in components: del self.wakeups[c]` — the flag is NOT cleared.
+        -- NEW: the first wakeups are re-evaluated; OLD: the stale `components` are served
+        some (if fixed then s.serveFirst
+              else { s with wake := delWakeups s.wake cs, pc := .ticking cs w })
     | .ticking _ _ => some { s with pc := .top }
     | .dead => none
 
 /-- a history; actions that are not enabled are skipped. -/
-def LoopSt.run (fixed : Bool) (s : LoopSt) : List LoopAct → LoopSt
+def MLoopSt.run (fixed : Bool) (s : MLoopSt) : List MLoopAct → MLoopSt
   | [] => s
   | a :: as => match s.step fixed a with
-    | some s' => LoopSt.run fixed s' as
-    | none => LoopSt.run fixed s as
+    | some s' => MLoopSt.run fixed s' as
+    | none => MLoopSt.run fixed s as
 
 /-- the history of defect F16: an interrupt for the component being served arrives between
 the expiry of the sleep and the resumption of `_do_tick`. -/
-def f16History : List LoopAct :=
+def f16History : List MLoopAct :=
   [ .addWakeup "X" 10   -- a callback of X
   , .step               -- top → sleeping [X] 10
   , .sleepExpires
@@ -137,5 +148,10 @@ def f16History : List LoopAct :=
   , .step               -- the tick ends
   , .step               -- top, no wakeup: → waiting (OLD: the flag stays set)
   , .step ]             -- waiting: OLD falls through to the assertion
+
+/-- a wakeup for ANOTHER component with the same time arrives in the window: the original
+loop serves the stale set. -/
+def staleSetHistory : List MLoopAct :=
+  [ .addWakeup "X" 10, .step, .sleepExpires, .addWakeup "Y" 10 ]
 
 end Tickit
